@@ -54,6 +54,15 @@ Definition vol_rel (a b : volhdr) : Prop :=
 Definition sec_reads_buf (h : sechdr) (kids : list node) : Prop :=
   kids = [] \/ (s_type h = 2 /\ exists g, s_gd h = Some g /\ Z.land (gd_attrs g) 1 = 0).
 
+(* what a rebuilt volume reads of its old buffer: the two length guards and the header bytes *)
+Definition vol_buf_rel (h : volhdr) (b1 b2 : bytes) : Prop :=
+  (v_length h <? zlen b1) = (v_length h <? zlen b2) /\
+  (zlen b1 <? v_dataoff h) = (zlen b2 <? v_dataoff h) /\
+  slice 0 (v_dataoff h) b1 = slice 0 (v_dataoff h) b2.
+
+Lemma vol_buf_rel_refl h b : vol_buf_rel h b b.
+Proof. repeat split. Qed.
+
 Inductive rel : node -> node -> Prop :=
 | R_pad : forall o1 o2 b, rel (NPad o1 b) (NPad o2 b)
 | R_sec : forall h1 h2 b1 b2 k1 k2, sec_rel h1 h2 -> Forall2 rel k1 k2 ->
@@ -62,8 +71,7 @@ Inductive rel : node -> node -> Prop :=
     (k1 = [] -> f_nvar h1 = None -> b1 = b2) -> rel (NFile h1 b1 k1) (NFile h2 b2 k2)
 | R_vol : forall h1 h2 b1 b2 k1 k2, vol_rel h1 h2 -> Forall2 rel k1 k2 ->
     (k1 = [] -> b1 = b2) ->
-    (k1 <> [] -> (v_length h1 <? zlen b1) = (v_length h1 <? zlen b2) /\
-                 slice 0 (v_dataoff h1) b1 = slice 0 (v_dataoff h1) b2) ->
+    (k1 <> [] -> vol_buf_rel h1 b1 b2) ->
     rel (NVol h1 b1 k1) (NVol h2 b2 k2).
 
 Definition orel (a b : node) : Prop := rel a b /\ node_buf a = node_buf b.
@@ -275,25 +283,30 @@ Proof. induction 1 as [|a b ? ? [H _] _ IH]; constructor; auto. Qed.
 
 Lemma asm_vol_congr pol ffs3 h1 h2 b1 b2 k1 k2 :
   vol_rel h1 h2 -> Forall2 orel k1 k2 -> (k1 = [] -> b1 = b2) ->
-  (k1 <> [] -> (v_length h1 <? zlen b1) = (v_length h1 <? zlen b2) /\
-               slice 0 (v_dataoff h1) b1 = slice 0 (v_dataoff h1) b2) ->
+  (k1 <> [] -> vol_buf_rel h1 b1 b2) ->
   out_rel (fun a b => vol_rel (fst a) (fst b) /\ snd a = snd b)
           (asm_vol pol ffs3 h1 b1 k1) (asm_vol pol ffs3 h2 b2 k2).
 Proof.
   intros Hv Hk He Hn. pose proof Hv as (Hg & Hl & Ha & Hh & Hb & Hd & Hr).
-  unfold asm_vol. destruct Hk as [|x y k1 k2 Hxy Hk].
-  - cbn. split; auto.
-  - set (l1 := x :: k1). set (l2 := y :: k2).
-    assert (Hpf : forall fb off lim, place_files pol lim fb off l1 = place_files pol lim fb off l2).
-    { intros. apply place_files_congr. constructor; auto. }
-    destruct (Hn ltac:(discriminate)) as [Hlen Hsl].
-    rewrite <- Hl, <- Hb, <- Hd, <- Hh, <- Hr, <- Hg, <- Hlen, <- Hsl.
+  unfold asm_vol. rewrite <- Hg.
+  assert (Hm : match k1 with [] => true | _ => false end = match k2 with [] => true | _ => false end)
+    by (destruct Hk; reflexivity).
+  rewrite <- Hm.
+  destruct ((match k1 with [] => true | _ => false end) && negb (supported_fv (v_guid h1))) eqn:C.
+  - cbn. split; [assumption|]. apply He. destruct k1; [reflexivity|discriminate C].
+  - assert (Hbuf : vol_buf_rel h1 b1 b2).
+    { destruct k1 as [|x k1]; [rewrite (He eq_refl); apply vol_buf_rel_refl|apply Hn; discriminate]. }
+    destruct Hbuf as (Hlen & Hgd & Hsl).
+    assert (Hpf : forall fb off lim, place_files pol lim fb off k1 = place_files pol lim fb off k2).
+    { intros. apply place_files_congr. assumption. }
+    rewrite <- Hl, <- Hb, <- Hd, <- Hh, <- Hr, <- Hlen, <- Hgd, <- Hsl.
     destruct (v_length h1 <? zlen b1); [cbn; reflexivity|].
     destruct (v_blocks h1) as [|[c s] rest] eqn:Hbl; [cbn; reflexivity|].
     destruct (v_dataoff h1 <? v_hdrlen h1); [cbn; reflexivity|].
+    destruct (zlen b1 <? v_dataoff h1); [cbn; reflexivity|].
     destruct (slice 0 (v_dataoff h1) b1) as [hdr|]; cbn [of_opt bind]; [|reflexivity].
     rewrite <- Hpf.
-    destruct (place_files pol _ hdr (v_dataoff h1) l1) as [pb| | |]; cbn [bind]; try reflexivity.
+    destruct (place_files pol _ hdr (v_dataoff h1) k1) as [pb| | |]; cbn [bind]; try reflexivity.
     destruct ((v_length h1 <? zlen pb) && negb (v_resizable h1)); [cbn; reflexivity|].
     match goal with |- out_rel _ (bind ?x _) _ => destruct x as [[len blocks]| | |]; cbn [bind]; try reflexivity end.
     match goal with |- out_rel _ (if ?c then _ else _) _ => destruct c; [cbn; reflexivity|] end.
@@ -438,7 +451,7 @@ Proof.
       * intros E. apply Hne. intro E'. apply E. apply Hnil; auto.
     + intros [h1' nb1] [h2' nb2] [Hv' Hnb]; cbn [fst snd] in *; subst nb2.
       cbn. split; [|reflexivity]. split; [|reflexivity].
-      constructor; auto. apply Forall2_orel_rel; auto.
+      constructor; auto; try (intros; apply vol_buf_rel_refl). apply Forall2_orel_rel; auto.
 Qed.
 
 End Asm.
@@ -563,8 +576,8 @@ Proof.
       cbn [proj_vol v_length v_dataoff].
       cbv beta iota delta [sv_vol_length sv_vol_dataoff sv_vol_path].
       assert (Hd : 0 <= v_dataoff h <= zlen b /\ zlen b <= v_length h) by lia.
-      rewrite zlen_zfirstn by lia.
-      split; [lia|].
+      unfold vol_buf_rel. rewrite zlen_zfirstn by lia.
+      split; [lia|]. split; [lia|].
       unfold slice. rewrite zlen_zfirstn by lia.
       replace ((0 <=? 0) && (0 <=? v_dataoff h) && (v_dataoff h <=? v_dataoff h)) with true by lia.
       replace ((0 <=? 0) && (0 <=? v_dataoff h) && (v_dataoff h <=? zlen b)) with true by lia.
